@@ -1,4 +1,3 @@
 package main
 
 func cmdOmap(line []byte, emit func(interface{})) { emit(map[string]string{"harness_error": "omap not built yet"}) }
-func cmdConc(line []byte, emit func(interface{})) { emit(map[string]string{"harness_error": "conc not built yet"}) }
